@@ -125,8 +125,8 @@ theorem ply_reader_built_all (binary : Bool) (props : List (Bytes × SType)) (r 
 
 /-- THE IGNORABLE-W FALLBACK (colours without alpha: what the default writer emits for `Color`): `red green blue` present
 with one type, `alpha` ABSENT ⇒ the 4-vector reader is not built and the 3-vector reader over the first three names is,
-located at their header positions.  (With `alpha` PRESENT under another type the binary reader forces that type on the
-whole group — reader_vector4.go:73 — which is the candidate finding `c04.holds.alpha_next_to_color_witness`.) -/
+located at their header positions.  (Before fix 8c2f8cb the binary reader forced a differently-typed `alpha`'s type on the
+whole group — the finding behind the corpus case `c04.holds.alpha_next_to_color`.) -/
 theorem ply_color_fallback_reader (binary : Bool) (props : List (Bytes × SType)) (r : RProp) (hlen : r.names.length = 4)
     (hign : r.ignorableW = true) (hn : r.names.Nodup) (hnd : (props.map (·.1)).Nodup) (t : SType) (idx : List Nat)
     (hl : idx.length = 3)
@@ -140,11 +140,11 @@ example : buildReader true [(nm "x", .float), (nm "blue", .uchar), (nm "red", .u
     ⟨colorAttr, [nm "red", nm "green", nm "blue", nm "alpha"], true⟩
     = some ⟨colorAttr, [nm "red", nm "green", nm "blue"], [5, 6, 4], some .uchar⟩ := by decide
 
-/-- the forced W type, concretely: `red green blue uchar` + `alpha float` in a binary header builds ONE 4-vector reader
-of type float over the uchar fields -/
+/-- since fix 8c2f8cb the same fallback applies when `alpha` is present under ANOTHER type (user scalar "alpha" next to the
+default writer's uchar colours): the 4-vector is not claimed, the uchar 3-vector is, `alpha` stays a scalar -/
 example : buildReader true [(nm "red", .uchar), (nm "green", .uchar), (nm "blue", .uchar), (nm "alpha", .float)]
     ⟨colorAttr, [nm "red", nm "green", nm "blue", nm "alpha"], true⟩
-    = some ⟨colorAttr, [nm "red", nm "green", nm "blue", nm "alpha"], [0, 1, 2, 3], some .float⟩ := by decide
+    = some ⟨colorAttr, [nm "red", nm "green", nm "blue"], [0, 1, 2], some .uchar⟩ := by decide
 
 /-- a welded, UV-mapped quad (two triangles sharing an edge, one unreferenced vertex): the per-corner path -/
 def exUV : MeshVal Nat :=
